@@ -8,4 +8,7 @@ let handle (toks : string list) : string =
   | ["valid_json"; s] -> bool_str (valid_json (bytes_of_hex s))
   | ["is_int_text"; s] -> bool_str (is_int_text (bytes_of_hex s))
   | ["string_safe"; s] -> bool_str (string_safe (bytes_of_hex s))
+  | ["ws_header"; n] -> hex_of_bytes (ws_header (n_of_int (int_of_string n)))
+  | ["ws_decode"; f] ->
+      (match ws_decode (bytes_of_hex f) with Some p -> hex_of_bytes p | None -> "none")
   | _ -> "?unknown"
